@@ -51,6 +51,21 @@ Theorem C08_chanmap_sequence_state :
 Proof. exact crun_cfinal. Qed.
 Print Assumptions C08_chanmap_sequence_state.
 
+(* ... spelled out: the state after ANY concurrent execution whose operations, in lock-acquisition order, carry fresh
+   child names and channels is crun's, no channel was closed twice, the maps are consistent, no nil map is stored, and
+   a booking has a key exactly while one of its connections has *)
+Theorem C08_chanmap_concurrent_total :
+  forall progs sched (s : cm_cstate),
+    SerialEq.run cm_ueqb cm_upd sched (SerialEq.init progs (fun _ => cm_init)) = Some s -> SerialEq.finished s = true ->
+    fresh_adds (map (@SerialEq.c_op unit cop) (SerialEq.acqs s)) ->
+    SerialEq.st s tt = fst (crun cm_init (map (@SerialEq.c_op unit cop) (SerialEq.acqs s))) /\
+    NoDup (closedl (SerialEq.st s tt)) /\
+    consistent (SerialEq.st s tt) /\
+    (forall p, plk p (children (SerialEq.st s tt)) <> Some None) /\
+    (forall p, plk p (children (SerialEq.st s tt)) <> None <-> exists c, mlk c (pbc (SerialEq.st s tt)) = Some p).
+Proof. exact concurrent_chanmap_total. Qed.
+Print Assumptions C08_chanmap_concurrent_total.
+
 (* non-vacuity: an admission (Add), a disconnect of another connection (DelChild) and a deny (DelCloseParent) from
    three threads; the deny gets the lock between the two others: the store is what that order gives *)
 Example C08_chanmap_concurrent_witness :
@@ -60,6 +75,15 @@ Example C08_chanmap_concurrent_witness :
   | None => (false, [], [])
   end = (true, [2; 1; 0; 2], [(7, Some [(11, 11)])]%N).
 Proof. vm_compute. reflexivity. Qed.
+
+(* non-vacuity of C08_chanmap_concurrent_total: that execution finishes and its lock-acquisition order is fresh *)
+Example C08_chanmap_concurrent_total_witness :
+  let progs := [[(tt, Add 7 11 11)]; [(tt, DelCloseParent 7)]; [(tt, Add 7 12 12); (tt, DelChild 12)]]%N in
+  match SerialEq.run cm_ueqb cm_upd [2;2;2; 1;1;1; 0;0;0; 2;2;2] (SerialEq.init progs (fun _ => cm_init)) with
+  | Some s => SerialEq.finished s = true /\ fresh_adds (map (@SerialEq.c_op unit cop) (SerialEq.acqs s))
+  | None => False
+  end.
+Proof. vm_compute. repeat split; intuition discriminate. Qed.
 
 (* non-vacuity: the last child of a booking goes (by child delete, twice) and the booking's key with it *)
 Example C08_witness_empty_parent :
